@@ -2,14 +2,15 @@
 #include "props/C07.hpp"
 using namespace c07;
 
-struct Case { bool serial, mem16, guaranteed; Bytes raw; std::string kind = "none"; };
+struct Case { bool serial, mem16, guaranteed; Bytes raw; std::string kind = "none"; int mode = 0; };   // mode: see c07::judge (1: block one octet too small, 2: allocation fails)
 static Case g_cur;
-static std::string ser_case(const Case &c) { return vp::fmt("frame %d %d %d %s %s\n", (int)c.serial, (int)c.mem16, (int)c.guaranteed, c.raw.empty() ? "-" : vp::hex(c.raw).c_str(), c.kind.c_str()); }
+static std::string ser_case(const Case &c) { return vp::fmt("frame %d %d %d %s %s %d\n", (int)c.serial, (int)c.mem16, (int)c.guaranteed, c.raw.empty() ? "-" : vp::hex(c.raw).c_str(), c.kind.c_str(), c.mode); }
 
 static bool run_case(Case c, const char *cls) {
     if (c.kind == "none" || c.kind.empty()) c.kind = cls;
     g_cur = c;
-    Outcome o = judge(c.serial, c.mem16, c.raw, c.guaranteed);
+    Outcome o = judge(c.serial, c.mem16, c.raw, c.guaranteed, 64, c.mode);
+    if (c.mode) { vp::count(); if (!o.key.empty()) { vp::fail(o.key, o.msg, ser_case(c)); return false; } vp::cls(c.mode == 1 ? "frame-does-not-fit-the-block" : "allocation-fails"); if (o.ref == rp::V_BAD_HDCRC) vp::nontrivial(vp::fnv(c.raw.data(), c.raw.size(), 900 + c.mode)); return true; }
     vp::count();
     if (!o.key.empty()) { vp::fail(o.key, o.msg, ser_case(c)); return false; }
     if (o.collision) {
@@ -63,7 +64,7 @@ static void run() {
     auto &a = vp::args();
     vp::CaseScope scope([] { return ser_case(g_cur); });
     bool T = a.thorough();
-    vp::stats().rule = vp::fmt("enum: corpus of %zu reference-encoded serial frames (every type x 8/16-bit x payload sizes 0,1,2,3,8,31); on each: every single-bit flip, every two-bit flip and every burst "
+    vp::stats().rule = vp::fmt("enum: corpus of %zu reference-encoded serial frames (every type x 8/16-bit x payload sizes 0,1,2,3,8,31); on each: every single-bit flip (also with a receive block one octet too small and with a failing allocation), every two-bit flip and every burst "
                                "of length 2..16 (first and last bit set, %s interior patterns; bits numbered in UART wire order (LSB first) and also MSB first) at every bit offset behind the first header word, every truncation length, extensions by 1..4 octets; "
                                "plus frames with every combination of the three option bits x right/wrong header CRC x right/wrong payload CRC x payload length deltas on both transports, and random "
                                "octet strings; oracle = reference decoder verdict, empty back-end log, no ACK, prescribed meta / error reply", corpus().size(), T ? "all" : "64 random");
@@ -78,7 +79,8 @@ static void run() {
         {   // the undamaged frame must be accepted
             if (idx++ % a.nshards == a.shard) run_case({true, mem16, false, raw}, "undamaged");
         }
-        for (size_t b = 0; b < nbits; b++) { if (idx++ % a.nshards != a.shard) continue; Bytes d = raw; flip(d, b); run_case({true, mem16, true, d}, "single-bit"); }
+        for (size_t b = 0; b < nbits; b++) { if (idx++ % a.nshards != a.shard) continue; Bytes d = raw; flip(d, b); run_case({true, mem16, true, d}, "single-bit");
+            for (int mode = 1; mode <= 2; mode++) { Case c{true, mem16, true, d}; c.kind = "single-bit"; c.mode = mode; run_case(c, "single-bit"); } }
         for (size_t b1 = 16; b1 < nbits; b1++) for (size_t b2 = b1 + 1; b2 < nbits; b2++) {
             if (idx++ % a.nshards != a.shard) continue;
             Bytes d = raw; flip(d, b1); flip(d, b2); run_case({true, mem16, true, d}, "two-bit");
@@ -153,6 +155,7 @@ static bool replay(const std::string &text) {
     if (w.size() < 5 || w[0] != "frame") return false;
     Case c{(bool)atoi(w[1].c_str()), (bool)atoi(w[2].c_str()), (bool)atoi(w[3].c_str()), w[4] == "-" ? Bytes() : vp::unhex(w[4])};
     if (w.size() >= 6) c.kind = w[5];
+    if (w.size() >= 7) c.mode = atoi(w[6].c_str());
     vp::CaseScope scope([] { return ser_case(g_cur); });
     return run_case(c, "replay");
 }
